@@ -479,30 +479,29 @@ impl<'b> InputState<'b> {
         wrt: &mut dyn Refresher,
         digit: char,
     ) -> Result<KeyEvent> {
+        // sign and magnitude are kept apart: a lone `-` stands for -1 until a digit is typed,
+        // and every following digit extends the magnitude (`M-- 1 2` is -12)
         #[expect(clippy::cast_possible_truncation)]
-        match digit {
-            '0'..='9' => {
-                self.num_args = digit.to_digit(10).unwrap() as i16;
-            }
-            '-' => {
-                self.num_args = -1;
-            }
+        let (negative, mut magnitude) = match digit {
+            '0'..='9' => (false, Some(digit.to_digit(10).unwrap() as i16)),
+            '-' => (true, None),
             _ => unreachable!(),
-        }
+        };
         loop {
+            self.num_args = match magnitude {
+                Some(m) if negative => -m,
+                Some(m) => m,
+                None => -1,
+            };
             wrt.refresh_prompt_and_line(&format!("(arg: {}) ", self.num_args))?;
             let key = rdr.next_key(true)?;
             #[expect(clippy::cast_possible_truncation)]
             match key {
                 E(K::Char(digit @ '0'..='9'), m) if m == M::NONE || m == M::ALT => {
-                    if self.num_args == -1 {
-                        self.num_args *= digit.to_digit(10).unwrap() as i16;
-                    } else if self.num_args.abs() < 1000 {
-                        // shouldn't ever need more than 4 digits
-                        self.num_args = self
-                            .num_args
-                            .saturating_mul(10)
-                            .saturating_add(digit.to_digit(10).unwrap() as i16);
+                    let cur = magnitude.unwrap_or(0);
+                    // shouldn't ever need more than 4 digits
+                    if cur < 1000 {
+                        magnitude = Some(cur * 10 + digit.to_digit(10).unwrap() as i16);
                     }
                 }
                 E(K::Char('-'), m) if m == M::NONE || m == M::ALT => {}
